@@ -148,7 +148,7 @@ func conformVocabulary(m *Model) []celem {
 	return elems
 }
 
-var cleanStyleValue = regexp.MustCompile(`^[a-zA-Z0-9#%.,-][a-zA-Z0-9 #%.,-]*$`)
+var cleanStyleValue = regexp.MustCompile(`^(?:[a-zA-Z0-9#%.,-][a-zA-Z0-9 #%.,-]*|'[a-z -]+')$`)
 
 // genConform returns a well-formed document in canonical serialisation that uses only
 // elements, attributes and values the model allows. ok=false when the vocabulary is empty.
